@@ -553,6 +553,27 @@ where
                 Err(e) => gerr(&e),
             }
         }
+        // ---------------- the public try_access with a scripted client callback ----------------
+        "try_access_cb" => {
+            let script: Vec<Value> = line["a"]["script"].as_array().cloned().unwrap_or_default();
+            let mut calls: Vec<Value> = Vec::new();
+            let mut pos = 0usize;
+            let r = m.try_access(gu("count"), ga("addr"), |total, len, start, region| {
+                calls.push(json!({"total": total, "len": len, "start": start.0, "rs": region.start_addr().0}));
+                let rep = script.get(pos).cloned().unwrap_or_else(|| json!({"b": "full"}));
+                pos += 1;
+                match rep["b"].as_str().unwrap_or("full") {
+                    "full" => Ok(len),
+                    "n" => Ok(rep["k"].as_u64().expect("harness: k") as usize),
+                    "zero" => Ok(0),
+                    _ => Err(GErr::IOError(std::io::Error::new(std::io::ErrorKind::Other, "scripted"))),
+                }
+            });
+            match r {
+                Ok(n) => json!({"k": "ok", "n": n, "calls": calls}),
+                Err(e) => json!({"k": "err", "e": gerr(&e)["e"], "ek": gerr(&e)["e"], "calls": calls}),
+            }
+        }
         // ---------------- scripted streams (C14) ----------------
         "s_read_from" | "s_read_exact_from" | "rs_read_from" | "rs_read_exact_from" => {
             let mut rd = ScriptedReader { script: parse_script(&line["a"]["script"]).into(), pos: 0, calls: 0 };
